@@ -375,9 +375,13 @@ pub mod ptoken {
         pub fn balance(env: Env, id: Address) -> i128 {
             env.storage().persistent().get(&PKey::Bal(id)).unwrap_or(0)
         }
-        pub fn transfer(env: Env, from: Address, to: Address, amount: i128) {
+        pub fn transfer(env: Env, from: Address, to: Address, amount: i128) -> soroban_sdk::Val {
             from.require_auth();
             if env.storage().instance().get::<_, bool>(&PKey::FailNext).unwrap_or(false) {
+                // the soft way: report failure through the return value and move nothing
+                if env.storage().instance().get::<_, u32>(&PKey::FailKind).unwrap_or(0) == 2 {
+                    return soroban_sdk::Val::from_bool(false).to_val();
+                }
                 if env.storage().instance().get::<_, u32>(&PKey::FailKind).unwrap_or(0) == 1 {
                     soroban_sdk::panic_with_error!(&env, PTokenError::Refused);
                 }
@@ -393,6 +397,7 @@ pub mod ptoken {
             env.storage().persistent().set(&PKey::Bal(from), &(fb - amount));
             let tb: i128 = env.storage().persistent().get(&PKey::Bal(to.clone())).unwrap_or(0);
             env.storage().persistent().set(&PKey::Bal(to), &(tb + amount));
+            soroban_sdk::Val::VOID.to_val()
         }
         pub fn allowance(env: Env, from: Address, spender: Address) -> i128 {
             match env.storage().persistent().get::<_, (i128, u32)>(&PKey::Allow(from, spender)) {
@@ -518,5 +523,36 @@ pub mod vtarget {
         pub fn data(env: Env) -> bool {
             env.storage().instance().get(&VKey::Data).unwrap_or(false)
         }
+    }
+}
+
+pub mod pgateway {
+    use soroban_sdk::{contract, contractimpl, contracttype, Address, Bytes, BytesN, Env, String, Val};
+
+    #[contracttype]
+    pub enum GKey {
+        Answer,
+        Asked,
+    }
+
+    /// A stand-in gateway: answers `validate_message` with whatever value it was told to (a bool
+    /// like the real one, or something else), accepts outbound calls, counts how often it was asked.
+    #[contract]
+    pub struct ProbeGateway;
+
+    #[contractimpl]
+    impl ProbeGateway {
+        pub fn set_answer(env: Env, v: Val) {
+            env.storage().instance().set(&GKey::Answer, &v);
+        }
+        pub fn asked(env: Env) -> u32 {
+            env.storage().instance().get(&GKey::Asked).unwrap_or(0)
+        }
+        pub fn validate_message(env: Env, _caller: Address, _source_chain: String, _message_id: String, _source_address: String, _payload_hash: BytesN<32>) -> Val {
+            let n: u32 = env.storage().instance().get(&GKey::Asked).unwrap_or(0);
+            env.storage().instance().set(&GKey::Asked, &(n + 1));
+            env.storage().instance().get::<_, Val>(&GKey::Answer).unwrap_or(Val::VOID.to_val())
+        }
+        pub fn call_contract(_env: Env, _caller: Address, _destination_chain: String, _destination_address: String, _payload: Bytes) {}
     }
 }
